@@ -329,9 +329,6 @@ def ConRel (s : Rat) (c0 c : FCon) : Prop :=
 /-- invariant of the retry loop -/
 def StateInv (cons0 : List FCon) (st : NState) : Prop := List.Forall₂ (ConRel st.sepDist) cons0 st.cons
 
-/-- the state the nudging loop starts in -/
-def initState (o : ROpts) (segs : List RSeg) : NState := ⟨o.base, (regionCons o o.base segs).map (flat segs), []⟩
-
 theorem forall2_self {β : Type} {R : β → β → Prop} : ∀ (l : List β), (∀ a ∈ l, R a a) → List.Forall₂ R l l
   | [], _ => List.Forall₂.nil
   | a :: l, h => List.Forall₂.cons (h a List.mem_cons_self) (forall2_self l (fun b hb => h b (List.mem_cons_of_mem _ hb)))
@@ -892,5 +889,29 @@ theorem formAll_mem {β : Type} (ov : β → β → Bool) : ∀ (fuel : Nat) (l 
         · rw [List.mem_singleton] at h; exact h ▸ List.mem_cons_self
         · exact List.mem_cons_of_mem _ h
       · exact List.mem_cons_of_mem _ (hm.2 x (ih _ r hr x hx))
+
+/-! ### the pass: regions are processed one after the other, each from its own start state -/
+
+/-- every state in the trace of a region is reachable (so the retry theorems apply to it) -/
+theorem regionTrace_reach (o : ROpts) (vars : List Var) (st0 : NState) : ∀ (answers : List (List Rat)) (st : NState),
+    Reach o vars st0 st → ∀ s ∈ regionTrace o vars st answers, Reach o vars st0 s := by
+  intro answers
+  induction answers with
+  | nil =>
+    intro st hr s hs
+    simp only [regionTrace, List.mem_singleton] at hs
+    exact hs ▸ hr
+  | cons fps rest ih =>
+    intro st hr s hs
+    unfold regionTrace at hs
+    rcases List.mem_cons.mp hs with rfl | hs
+    · exact hr
+    · split at hs
+      · rename_i out hstep
+        split at hs
+        · rename_i hret
+          exact ih out.next (Reach.step fps hr hstep hret) s hs
+        · cases hs
+      · cases hs
 
 end AdaptaVerif.Lemmas.NudgeRegion
